@@ -122,7 +122,24 @@ def monitors(cfg, obs_list):
             elif res[0] != 'exc' or res[1] not in ('RequestFailedException', 'MaxRetriesException'):
                 bad = f'outcome {res[:2]}'
             if bad:
-                out.append(('C05' if i else 'C04', 'silent-request:R+1-spaced-T', bad, i))
+                out.append(('C04', 'silent-request:R+1-spaced-T', bad, i))
+                if i:
+                    out.append(('C05', 'silent-request:R+1-spaced-T', bad, i))
+        # an attempt during which nothing at all came back lasts exactly one timeout - not less (C05: every request gets
+        # the full timeout, whatever happened to earlier requests), not more (C04)
+        if o.clean_start and res[0] != 'hang':
+            rxt = [e[2] for e in o.events if e[0] == 'rx']
+            for k in range(n):
+                if o.letters[k] != 'drop':
+                    continue
+                end = ts[k + 1] if k + 1 < n else o.t1
+                if any(ts[k] - TOL <= t <= end + TOL for t in rxt):
+                    continue
+                dur = end - ts[k]
+                if abs(dur - T) > TOL and not (k + 1 < n and abs(dur - T - lat) <= TOL):
+                    out.append(('C05', 'quiet-attempt-lasts-exactly-T',
+                                f'attempt {k + 1} ended {dur:.6f} after its transmission, nothing was received meanwhile', i))
+                    break
         # an exception frame as the only thing received
         if o.letters and all(x == 'drop' for x in o.letters[:-1]) and _delay_of(o.letters[-1], T) is not None \
                 and len(o.rx) == 1 and o.clean_start:
